@@ -527,6 +527,30 @@ def run(idx: ProgramIndex, rep: Report, tier: str, selftest: bool = True):
     else:
         rep.bad("C16.D", Finding(PROP, "C16.D", fname(helper), "default max_tries",
                                  "the default number of tries does not come from settings.cholesky_max_tries", helper.loc()))
+    # "jitter and max_tries given explicitly": an explicit value - also a falsy one, jitter=0.0 - must be honoured, i.e. the
+    # settings default is installed under a test for None, not under a truthiness test (`x = x or default`, `if not x:`)
+    for pname in ("jitter", "max_tries"):
+        if pname not in helper.params():
+            continue
+        for n in walk_body(helper):
+            bad_form = None
+            if isinstance(n, ast.Assign) and any(isinstance(t, ast.Name) and t.id == pname for t in n.targets):
+                v = n.value
+                if isinstance(v, ast.BoolOp) and isinstance(v.op, ast.Or) and isinstance(v.values[0], ast.Name) and v.values[0].id == pname:
+                    bad_form = norm(n)
+                if isinstance(v, ast.IfExp) and isinstance(v.test, ast.Name) and v.test.id == pname:
+                    bad_form = norm(n)
+                if isinstance(v, ast.IfExp) and isinstance(v.test, ast.UnaryOp) and isinstance(v.test.op, ast.Not) \
+                        and isinstance(v.test.operand, ast.Name) and v.test.operand.id == pname:
+                    bad_form = norm(n)
+            if isinstance(n, ast.If) and ((isinstance(n.test, ast.UnaryOp) and isinstance(n.test.op, ast.Not) and isinstance(n.test.operand, ast.Name)
+                                           and n.test.operand.id == pname)) and any(
+                    isinstance(x, ast.Assign) and any(isinstance(t, ast.Name) and t.id == pname for t in x.targets) for st_ in n.body for x in ast.walk(st_)):
+                bad_form = "if " + norm(n.test) + ": ..."
+            if bad_form:
+                rep.bad("C16.D", Finding(PROP, "C16.D", fname(helper), f"default of {pname} installed on falsiness",
+                                         f"`{bad_form[:80]}` replaces every FALSY {pname} by the settings default: an explicit "
+                                         f"{pname}=0 is ignored (jitter=0.0 must mean: no perturbation, fail loudly)", helper.loc(n)))
     # the loop bound depends on max_tries
     if isinstance(loop.ast, ast.For) and "max_tries" in ({x.id for x in ast.walk(loop.ast.iter) if isinstance(x, ast.Name)}):
         rep.ok("C16.D", {"retry_loop_bound": norm(loop.ast.iter)})
